@@ -916,6 +916,23 @@ struct Case {
 				if (sn.cur < 0) { w.muteAllow = nullptr; w.V("C01", "machine-activity-vs-pairing|reports-inactive|copy-taken-inside-callback", "enter() on the exited copy left it inactive"); w.muteAllow = ONLY_C05; opDestroy(4); w.muteAllow = nullptr; return; }
 			}
 #endif
+			// one in four: the very first request the copy processes is vetoed by all of its guards - it stays where it is and
+			// runs no exit/enter (C03), whatever transition the original was evaluating when the copy was taken
+			if (w.ch.draw(4) == 0) {
+				const int was = sn.cur;
+				sn.policy = POL_VETO;
+				opChange(sn, static_cast<uint8_t>(w.ch.draw(N)), false, true);
+				sn.policy = POL_PASSIVE;
+				const char* const* saved = w.muteAllow;
+				w.muteAllow = nullptr;
+				const ffsm2::StateID now = sn.obj->activeStateId();
+				if (static_cast<int>(now) != was || sn.st.exits || sn.st.enters || sn.st.reenters)
+					w.V("C03", "cancelled-transition-applied|copy-taken-inside-callback", fmt("a copy taken inside a callback (active in %d): every guard vetoed its first request, yet it ran %u exits / %u enters / %u reenters and is in state %u now; %s", was, sn.st.exits, sn.st.enters, sn.st.reenters, now, w.tail().c_str()));
+				w.muteAllow = saved;
+				w.stats.add("snapshot_vetoed_first_requests");
+				const ffsm2::StateID again = sn.obj->activeStateId();
+				sn.cur = again == ffsm2::INVALID_STATE_ID ? -1 : static_cast<int>(again);
+			}
 			opUpdate(sn);
 			opReact(sn, 6 + (w.caseNo & 1));
 			opQuery(sn);
